@@ -149,4 +149,40 @@ def ixDbg (args : List String) (impl : String) : String × String :=
     | _, _, _ => ("bad-op", "n/a")
   | _ => ("bad-op", "n/a")
 
+/-- first push of an unlocking script (the signature with its hash-type byte) -/
+def firstPush (u : Bytes) : Bytes :=
+  match u with
+  | [] => []
+  | b :: r => match Script.decodeStep b r with
+    | some (p, _) => p
+    | none => []
+
+/-- `C04.mut <flags> <mutTx> <idx> <sats> <lock> <origTx> <origIdx> <origSats> <origLock>`:
+    the implementation's verdict on the (possibly mutated) signed transaction.  Predicate: the input is accepted
+    exactly when the digest its hash type commits to is unchanged by the mutation (and accepted when nothing was
+    mutated); rejection of a changed digest rests on ECDSA (a different digest does not verify). -/
+def c04Mut (args : List String) (impl : String) : String × String :=
+  match args with
+  | [fl, mtd, midx, msats, mlock, otd, oidx, osats, olock] =>
+    match fl.toNat?, parseTx? mtd, midx.toNat?, msats.toNat?, unE? mlock, parseTx? otd, oidx.toNat?, osats.toNat?, unE? olock with
+    | some flags, some mtx, some mi, some ms, some ml, some otx, some oi, some os, some ol =>
+      let unlock := ((mtx.inputs.getD mi default).unlocking).getD []
+      let ctx : Ctx := { tx := mtx, idx := mi, prevOut := { sats := ms, script := ml } }
+      let (v, tr) := execute realCrypto flags (some ctx) unlock ml
+      let (vs, _) := showVerdict v impl
+      let model := s!"{vs} mut=0 t={"|".intercalate (tr.reverse.map showSnap)}"
+      let shf := ((firstPush unlock).getLast?.getD 0).toNat
+      let env := mkEnv realCrypto flags (some ctx)
+      let dM := sigDigest env ctx ml shf
+      let dO := sigDigest env { tx := otx, idx := oi, prevOut := { sats := os, script := ol } } ol shf
+      let expectAccept := dM.isSome && dM == dO
+      let pred := if impl.startsWith "PANIC" then "false:panic"
+        else if impl.startsWith "accept" != expectAccept then
+          (if expectAccept then "false:uncommitted-change-invalidated-the-signature (or own signature rejected)"
+           else "false:committed-change-still-accepted")
+        else "true"
+      (model, pred)
+    | _, _, _, _, _, _, _, _, _ => ("bad-op", "n/a")
+  | _ => ("bad-op", "n/a")
+
 end GoBT.Driver
